@@ -134,6 +134,27 @@ CHECKS["C06"] = dict(engine="sc-deadlines", ref="4 (Engine SC, C06)",
          "tolerance; late mode: never early, decisions by nominal deadline order). Ties (sleep ending exactly at a deadline) "
          "follow the observed outcome, nothing else does. Exploration level.")
 
+CHECKS["C19"] = dict(engine="func-itertools", ref="4 (Engine FUNC, C19)",
+    technique="differential enumeration against CPython's itertools/functools executed on the simulated loop (input "
+              "domain; simulation is only the vehicle) + deterministic simulation of tee() consumer interleavings",
+    text="Part (i): the table {all sequences over {0,1,2} up to length 4 (quick) / 6 (thorough)} x {list, iterator, async "
+         "generator, async iterable} x ~250 sub-cases (all 20 anyio.itertools functions and functools.reduce, integer "
+         "parameters -1..3/None incl. invalid ones, all islice(start,stop,step) combinations) is enumerated completely on "
+         "every run and compared with the standard library by result list / exception class. Part (ii): seeded tee() runs "
+         "with 0-3 consumers, tees of tees, seeded pacing, stalls: every consumer sees the whole sequence, the source's "
+         "__anext__ is entered once per element (+1) and never concurrently. Exploration level for (ii); (i) is an "
+         "enumeration of a bounded input space.")
+CHECKS["C20"] = dict(engine="func-lru", ref="4 (Engine FUNC, C20)",
+    technique="deterministic simulation: seeded concurrent callers / failures / cancellations / eviction pressure on a "
+              "virtual-time loop with single-flight, value-provenance, retention and ttl oracles; sequential histories "
+              "compared call by call with functools.lru_cache on a synchronous twin",
+    text="Sequential histories (30%): results (which embed the execution counter, so every hit/miss decision) and the "
+         "number of retained results must equal functools.lru_cache on a twin. Concurrent runs (70%): up to 5 callers over "
+         "4 keys, wrapped function suspends/fails per a seeded script, callers cancelled by timers, maxsize None/0/1/2/3, "
+         "typed, ttl, always_checkpoint: every value returned was produced by an execution for that key, at most one "
+         "execution per key in flight, callers see only the value / the function's own exception / their own cancellation, "
+         "retained results <= maxsize (behavioural probe), served values younger than ttl. Exploration level.")
+
 NOT_YET = "check not built yet in this snapshot of /verif (work in progress; see DESIGN.md section 4 for the plan)"
 
 
@@ -158,7 +179,7 @@ def main():
     engines = {}
     for pid, c in CHECKS.items():
         engines.setdefault(c["engine"], []).append(pid)
-    paths = {"sync-permits": "engines/permits.py", "sc": "engines/sc.py", "sync-conditions": "engines/conds.py", "sync-checkpoints": "engines/checkpoints.py", "mem": "engines/mem.py", "sc-deadlines": "engines/deadlines.py"}
+    paths = {"sync-permits": "engines/permits.py", "sc": "engines/sc.py", "sync-conditions": "engines/conds.py", "sync-checkpoints": "engines/checkpoints.py", "mem": "engines/mem.py", "sc-deadlines": "engines/deadlines.py", "func-itertools": "engines/func_iter.py", "func-lru": "engines/func_lru.py"}
     try:
         hooks = [l.split()[0] for l in subprocess.run(
             ["git", "-C", "/repo", "log", "--format=%h %s", "--grep=^hook:"], capture_output=True, text=True
